@@ -713,12 +713,15 @@ class VM:
         if not exact and st.run_cache is not None:
             c = st.run_cache.get(tid)
             if c is None:
-                c = s.solver.enumerate(st.pc[:st.base_len], term, limit)
+                c = s.solver.enumerate(st.pc[:st.base_len], term, min(limit, s.opts.get('run_cands', limit)))
                 if c is not None:
                     c.sort()
-                    st.run_cache[tid] = c
-                    st.run_keep.append(term)      # keep the term alive: ids are reused after gc
-            if c is not None:
+                else:
+                    c = False     # too many values under the run's initial path condition (e.g. a pointer field that is
+                                  # payload bytes in another variant): enumerate under the path's own condition instead
+                st.run_cache[tid] = c
+                st.run_keep.append(term)      # keep the term alive: ids are reused after gc
+            if c is not False:
                 return c
         vals = s.solver.enumerate(st.pc, term, limit)
         if vals is None:
